@@ -3,7 +3,7 @@ of the expression visitor, as plain Python over the DSL's constructors.  PARSED 
 
 from operator import attrgetter
 
-from y0.dsl import Distribution, Fraction, Probability, Product, QFactor, Sum, _get_free_variables, ensure_ordering
+from y0.dsl import CounterfactualVariable, Distribution, Fraction, Probability, Product, QFactor, Sum, _get_free_variables, ensure_ordering
 
 
 # ---- chain rule: P(c_1..c_n | pa) = Π_i P(c_i | c_{i+1}..c_n, pa), children taken in the given order or in the requested ordering
@@ -95,3 +95,10 @@ def free_variables(expression):
         return _get_free_variables(expression.numerator) | _get_free_variables(expression.denominator)
     else:
         return expression.get_variables()
+
+
+def ranges_subscript_children(ranges, children):
+    # Sum.simplify's no-capture test: SOME intervention of SOME counterfactual child carries the name of a summed variable -- one such subscript
+    # is enough for the summed variable to be left behind free (Sum[B](P(B, D @ (B, C))) is not P(D @ (B, C)))
+    names = {variable.name for variable in ranges}
+    return any(intervention.name in names for child in children if isinstance(child, CounterfactualVariable) for intervention in child.interventions)
